@@ -70,6 +70,16 @@ ONE = {
     'C15f': 'the pickler tests direct children with isinstance(obj, SupportRemoteGetState) instead of issubclass(type(obj), ...): the metaclass overrides __subclasscheck__ only, duck-typed / metaclass-only children get no frame and take their parent\'s patches',
     'C18f': 'the server refuses a duplicate context id only if the stored context is_alive() - a client-side flag that is False in the server\'s copy: every duplicate registration replaces the live context',
     'C19f': 'register_child appends without the "already registered" test: a restarted worker whose dead incarnation was not pruned is yielded twice',
+    'C10e': 'send_msg sends header and body with sock.sendmsg([header, body]) and ignores the returned count: a short write cuts the message while send_msg returns normally, the next message follows the stump',
+    'C01f': 'ProcessWorker._get_result narrows its blanket except to the exceptions the pickle docs list: the TypeError of an exception class whose constructor needs arguments escapes the first read of has_error/result/error, the second read finds EOF - the accessors raise and change after death',
+    'C06f': 'send_msg sends the length prefix and the body with two sendall calls (MSG_MORE on the first): a graceful terminate can land between them, the orphan header makes the front end misread every later message - no end marker, the consumer blocks for ever',
+    'C11f': 'send_msg converts only ConnectionError (not every OSError) into ConnectionClosedError: the EBADF of a control socket closed by the remote control thread escapes the accept loop and ends the server',
+    'C04f': 'ProcessWorker.wait returns True (and caches _dead) as soon as the final message has been received, without joining: a child that outlives its result (non-daemon thread, slow clean-up) is reported dead while its pid runs',
+    'C05f': 'the three enqueue methods test only the _closed flag (shared helper): a worker that died on its own was never closed - enqueue accepts the input silently (thread), raises BrokenPipeError (process) or drops it (remote)',
+    'C08f': 'the "any worker left?" test becomes len(_closed) < number of workers: ids of workers that died before restart_workers() stay in _closed and are counted against the new generation - PoolError while workers are alive',
+    'C13f': 'the metaclass writes a provisional False into its verdict cache before inspecting the MRO: a rejection (Warning) leaves it there, the second dump of such an object is serialised silently without the remote flag',
+    'C17f': 'restart() of a thread worker whose old incarnation cannot be stopped only logs a warning and goes on: the abandoned old thread acts on the new incarnation (shared object)',
+    'C20f': 'the server parks the client socket of a worker request naming an unknown context (to serve it when the context shows up) instead of closing it: the constructor blocks for as long as nobody registers that id',
     'C19e': 'the registry of active children becomes a dict keyed by worker id (setdefault): a new worker whose id equals that of a dead, not yet pruned one is never registered',
 }
 for d in sorted(glob.glob('/verif/seeded/*/')):
